@@ -5,8 +5,9 @@ from props import editlib as E
 from props import treelib as T
 
 ID = "C07"
-LEAN_MODULES = ["Ccp.Props.C07"]
-RULE = ("edit histories (same operation alphabet as C06, 1..8 operations, raw object handles resolved modulo the current length) from "
+LEAN_MODULES = ["Ccp.Props.C07", "Ccp.Props.C07Ck"]
+RULE = ("[also: 500 (quick) checkpoint histories with auto_commit off -- inserts in bursts of identical payloads, pop, text setter, commit -- whose "
+        "current_checkpoint - commit_checkpoint and search_safe are read after every operation] edit histories (same operation alphabet as C06, 1..8 operations, raw object handles resolved modulo the current length) from "
         "11 seed configs, banner/macro-bearing random configs and plain random configs; all four syntaxes; ignore_blank_lines on/off; "
         "auto_commit on, or off with explicit commits and search probes in between. After every step on a committed state the full "
         "dump (texts, line numbers, parents, stored child lists) is compared with a from-scratch CiscoConfParse of the same texts "
@@ -54,8 +55,13 @@ LEVEL_TEXT = ("Theorems (Lean 4, Ccp.Props.C07, every config, option set and his
               "PARTIAL: the full statement (all sixteen entry points) is false for the code as it is -- guarded_all_but_one, "
               "search_unguarded_answers: CiscoConfParse.re_match_iter_typed has no guard (known finding FC07a). "
               "Tied to the code by differential runs of histories.")
-LEVEL_NOTE = ("Trusted: Lean kernel, standard axioms, harness. The integer checkpoint is abstracted to a boolean (assumes the sum of line "
-              "identifiers changes when a line is inserted; a 64-bit hash collision is not modelled). All C07 theorems of DESIGN.md are proved "
+LEVEL_NOTE = ("Trusted: Lean kernel, standard axioms, harness. The edit machine abstracts the integer checkpoints to a boolean; "
+              "Ccp.Props.C07Ck models the two integers themselves (sum of hash((linenum, text)) over the list, hash as a parameter) and proves "
+              "that after k >= 1 inserts since a commit current - commit = the sum of the hashes of the fresh objects, so the seatbelt trips iff "
+              "that sum is not 0 (inserts_delta, inserts_unsafe_iff), that NoCancel is exactly the assumption of the boolean reading "
+              "(insert_sets_stale_of_noCancel, with a decided witness that two cancelling hashes go unnoticed), that pop / delete / the text "
+              "setter recompute nothing and commit closes the seatbelt; the 'ckpt' stream compares the implementation's two integers after every "
+              "operation with that model on Python-computed hash rows. All C07 theorems of DESIGN.md are proved "
               "at full strength; the one partial theorem is search_refuses_iff_stale_partial of the extended alphabet (the code lacks the guard "
               "in CiscoConfParse.re_match_iter_typed: FC07a, notes/proposed-fixes/C07-1.patch + C07-1.model-followup.patch). The model has ONE "
               "probe behaviour for all guarded searches (each starts with the same guard); which entry points carry the guard, and that the "
@@ -69,6 +75,8 @@ ASSUMPTIONS = ["hash((linenum, text)) sums differ after an insertion (no 64-bit 
 TRUSTED = ["regex oracle rows / substituted texts"]
 EXHAUSTIVE = {"quick": False, "thorough": False}
 
+
+from props import ckptlib as CK  # noqa: E402  integer checkpoints (model Ccp.Checkpoint, channel ckpt)
 
 def cases(rng, tier):
     n = {"quick": 1500, "thorough": 60000, "search": 2500}[tier]
@@ -118,9 +126,16 @@ def cases(rng, tier):
         if rng.random() < 0.3:
             c["opts"] = dict(rng.choice(HIST_OPTS))
         yield c
+    # the two checkpoint integers themselves (current_checkpoint - commit_checkpoint after every operation), auto_commit off
+    for _ in range({"quick": 500, "thorough": 20000, "search": 800}[tier]):
+        yield CK.rand_case(rng)
 
 
 def neighbours(case, rng):
+    if case.get("kind") == "ckpt":
+        for _ in range(150):
+            yield CK.rand_case(rng)
+        return
     for _ in range(150):
         ops = list(case["ops"])
         if len(ops) > 1 and rng.random() < 0.5:
@@ -134,10 +149,14 @@ def neighbours(case, rng):
 
 
 def impl(case):
+    if case.get("kind") == "ckpt":
+        return CK.impl(case)
     return X.run_history(case)
 
 
 def oracle(case, ans):
+    if case.get("kind") == "ckpt":
+        return CK.oracle(case, ans)
     steps = E.parse_answer(ans)
     fails = []
     refuse = False       # auto_commit off: a list insert / family append happened and no commit since
@@ -197,14 +216,20 @@ def known_id(case, failure):
 
 
 def nontrivial(case):
+    if case.get("kind") == "ckpt":
+        return any(o[0] == "i" for o in case["ops"])
     return any(o[0] not in ("commit", "probe") for o in case["ops"])
 
 
 def describe(case):
+    if case.get("kind") == "ckpt":
+        return {"kind": "checkpoint history (auto_commit off)", "lines": case["lines"], "ops": case["ops"]}
     return {k: case[k] for k in ("syntax", "ignore_blank", "auto_commit", "lines", "ops", "opts") if k in case}
 
 
 def buckets(case, ans):
+    if case.get("kind") == "ckpt":
+        return ["origin:checkpoint"] + ["ckpt-op:" + o[0] + ":" + p.split(",")[1] for o, p in zip(case["ops"], ans.split("|")) if "," in p]
     out = ["syntax:" + case["syntax"], "auto:%d" % case["auto_commit"], "ignore_blank:%d" % case["ignore_blank"]]
     for op, part in zip(case["ops"], ans.split("#")[1:]):
         name = op[0] + ("-" + op[1] if op[0] == "probe" and len(op) > 1 else "") + ("-obj" if op[-1] == "obj" else "")
